@@ -270,3 +270,5 @@ def run(ctx):
     finally:
         # numeric kernels this property's formulas rest on, pinned as canonical expression trees
         check_kernels(ctx, "C17.K", ['remaining-deposit-capacity'])
+        from .kernels import check_leaves
+        check_leaves(ctx, "C17.K", ['drift.scale_deposit_limit'])
